@@ -277,3 +277,190 @@ package runtime
 //@   arith bv
 //@   modifies everything()
 //@   ensures isNum(x) && (isFloat(x) ==> spec.floatIsInt(x.AsFloat())) ==> result1 == nil && isIntVal(result0, ^intOf(x))
+
+// ---------------------------------------------------------------------------
+// C07 / C05 / C06: resource accounting and nested contexts
+// (quotas.md: a limit of 0 means "no limit"; spec.limLe is the order on limits
+// in which 0 is the top element)
+// ---------------------------------------------------------------------------
+
+//@ macro resOK(used, hard) = (hard == 0 || used < hard)
+//@ macro usedOK(m) = (resOK(m.usedResources.Cpu, m.hardLimits.Cpu) && resOK(m.usedResources.Memory, m.hardLimits.Memory) && resOK(m.usedResources.Millis, m.hardLimits.Millis))
+//@ macro ctxOK(m) = (m.status == StatusLive ==> usedOK(m))
+//@ macro softOK(m) = (spec.limLe(m.softLimits.Cpu, m.hardLimits.Cpu) && spec.limLe(m.softLimits.Memory, m.hardLimits.Memory) && spec.limLe(m.softLimits.Millis, m.hardLimits.Millis))
+//@ macro trackOK(m) = ((m.hardLimits.Cpu != 0 ==> m.trackCpu) && (m.hardLimits.Memory != 0 ==> m.trackMem) && (m.hardLimits.Millis != 0 ==> m.trackTime && m.trackCpu))
+
+//@ func smallerLimit
+//@   prop C07
+//@   arith bv
+//@   ensures result == (spec.limLe(n, m) && n != m)
+
+//@ func atLimit
+//@   prop C07 C05 C06
+//@   arith bv
+//@   ensures result == spec.atLimit(v, l)
+
+// What a parent has left: saturating subtraction; "no limit" stays "no limit".
+//@ func (RuntimeResources).Remove
+//@   prop C07
+//@   arith bv
+//@   ensures result.Cpu == ite(r.Cpu >= v.Cpu, r.Cpu - v.Cpu, 0)
+//@   ensures result.Memory == ite(r.Memory >= v.Memory, r.Memory - v.Memory, 0)
+//@   ensures result.Millis == ite(r.Millis >= v.Millis, r.Millis - v.Millis, 0)
+
+// Greatest lower bound in the limit order.
+//@ func (RuntimeResources).Merge
+//@   prop C07
+//@   arith bv
+//@   ensures spec.limLe(result.Cpu, r.Cpu) && spec.limLe(result.Cpu, r1.Cpu) && (result.Cpu == r.Cpu || result.Cpu == r1.Cpu)
+//@   ensures spec.limLe(result.Memory, r.Memory) && spec.limLe(result.Memory, r1.Memory) && (result.Memory == r.Memory || result.Memory == r1.Memory)
+//@   ensures spec.limLe(result.Millis, r.Millis) && spec.limLe(result.Millis, r1.Millis) && (result.Millis == r.Millis || result.Millis == r1.Millis)
+
+//@ func (RuntimeResources).Dominates
+//@   prop C07
+//@   arith bv
+//@   ensures result == (!spec.atLimit(v.Cpu, r.Cpu) && !spec.atLimit(v.Memory, r.Memory) && !spec.atLimit(v.Millis, r.Millis))
+
+// Terminating a live context marks it killed and unwinds with a
+// ContextTerminationError; on a context that is not live it does nothing.
+//@ func (*runtimeContextManager).TerminateContext
+//@   prop C07 C05 C06
+//@   arith bv
+//@   modifies m.status
+//@   exits ContextTerminationError when m.status == StatusLive
+//@   exits_ensures m.status == StatusKilled
+//@   ensures m.status == old(m.status)
+
+//@ func (*runtimeContextManager).KillContext
+//@   prop C07 C05
+//@   arith bv
+//@   modifies m.status
+//@   exits ContextTerminationError when m.status == StatusLive
+//@   exits_ensures m.status == StatusKilled
+//@   ensures m.status == old(m.status)
+
+// The time check: the clock (now()) is external, so when it fires is not
+// determined; what is proved is the state in each outcome.
+//@ func (*runtimeContextManager).updateTimeUsed
+//@   prop C07 C05
+//@   arith bv
+//@   modifies m.usedResources.Millis, m.status
+//@   exits ContextTerminationError
+//@   exits_ensures old(m.status) == StatusLive && m.status == StatusKilled && spec.atLimit(m.usedResources.Millis, m.hardLimits.Millis)
+//@   ensures m.status == old(m.status)
+//@   ensures m.status == StatusLive ==> resOK(m.usedResources.Millis, m.hardLimits.Millis)
+
+// CPU counter: exact, never reaches the limit while live, never wraps.
+//@ func (*runtimeContextManager).requireCPU
+//@   prop C07 C05
+//@   arith bv
+//@   requires ctxOK(m)
+//@   modifies m.usedResources.Cpu, m.usedResources.Millis, m.nextCpuThreshold, m.status
+//@   exits ContextTerminationError
+//@   exits_ensures old(m.status) == StatusLive && m.status == StatusKilled
+//@   exits_ensures m.usedResources.Cpu == old(m.usedResources.Cpu)
+//@   exits_ensures (m.stopLevel&HardStop != 0) || spec.atLimit(old(m.usedResources.Cpu) + cpuAmount, m.hardLimits.Cpu) || !spec.addNoWrap(old(m.usedResources.Cpu), cpuAmount) || (m.trackTime && spec.atLimit(m.usedResources.Millis, m.hardLimits.Millis))
+//@   ensures m.usedResources.Cpu == old(m.usedResources.Cpu) + cpuAmount
+//@   ensures m.status == StatusLive ==> spec.addNoWrap(old(m.usedResources.Cpu), cpuAmount)
+//@   ensures m.status == old(m.status)
+//@   ensures m.status == StatusLive ==> m.stopLevel&HardStop == 0 && !spec.atLimit(m.usedResources.Cpu, m.hardLimits.Cpu)
+//@   ensures ctxOK(m)
+//@   ghost cpu += cpuAmount
+
+//@ func (*runtimeContextManager).RequireCPU
+//@   prop C07 C05
+//@   arith bv
+//@   requires ctxOK(m)
+//@   modifies m.usedResources.Cpu, m.usedResources.Millis, m.nextCpuThreshold, m.status
+//@   exits ContextTerminationError
+//@   exits_ensures old(m.trackCpu) && old(m.status) == StatusLive && m.status == StatusKilled && m.usedResources.Cpu == old(m.usedResources.Cpu)
+//@   ensures m.trackCpu ==> m.usedResources.Cpu == old(m.usedResources.Cpu) + cpuAmount
+//@   ensures !m.trackCpu ==> m.usedResources.Cpu == old(m.usedResources.Cpu)
+//@   ensures m.status == old(m.status)
+//@   ensures m.trackCpu && m.status == StatusLive ==> spec.addNoWrap(old(m.usedResources.Cpu), cpuAmount) && !spec.atLimit(m.usedResources.Cpu, m.hardLimits.Cpu)
+//@   ensures ctxOK(m)
+
+// Memory counter.
+//@ func (*runtimeContextManager).requireMem
+//@   prop C07 C06
+//@   arith bv
+//@   requires ctxOK(m)
+//@   modifies m.usedResources.Memory, m.status
+//@   exits ContextTerminationError
+//@   exits_ensures old(m.status) == StatusLive && m.status == StatusKilled
+//@   exits_ensures m.usedResources.Memory == old(m.usedResources.Memory)
+//@   exits_ensures (m.stopLevel&HardStop != 0) || spec.atLimit(old(m.usedResources.Memory) + memAmount, m.hardLimits.Memory) || !spec.addNoWrap(old(m.usedResources.Memory), memAmount)
+//@   ensures m.usedResources.Memory == old(m.usedResources.Memory) + memAmount
+//@   ensures m.status == StatusLive ==> spec.addNoWrap(old(m.usedResources.Memory), memAmount)
+//@   ensures m.status == old(m.status)
+//@   ensures m.status == StatusLive ==> !spec.atLimit(m.usedResources.Memory, m.hardLimits.Memory)
+//@   ensures ctxOK(m)
+//@   ghost mem += memAmount
+
+//@ func (*runtimeContextManager).RequireMem
+//@   prop C07 C06
+//@   arith bv
+//@   requires ctxOK(m)
+//@   modifies m.usedResources.Memory, m.status
+//@   exits ContextTerminationError
+//@   exits_ensures old(m.trackMem) && old(m.status) == StatusLive && m.status == StatusKilled && m.usedResources.Memory == old(m.usedResources.Memory)
+//@   ensures m.trackMem ==> m.usedResources.Memory == old(m.usedResources.Memory) + memAmount
+//@   ensures !m.trackMem ==> m.usedResources.Memory == old(m.usedResources.Memory)
+//@   ensures m.status == old(m.status)
+//@   ensures m.trackMem && m.status == StatusLive ==> spec.addNoWrap(old(m.usedResources.Memory), memAmount) && !spec.atLimit(m.usedResources.Memory, m.hardLimits.Memory)
+//@   ensures ctxOK(m)
+
+// Releasing never drives the counter below zero: callers must show they are
+// giving back no more than is accounted (otherwise the explicit panic fires).
+//@ func (*runtimeContextManager).ReleaseMem
+//@   prop C07 C06
+//@   arith bv
+//@   requires m.hardLimits.Memory > 0 ==> memAmount <= m.usedResources.Memory
+//@   modifies m.usedResources.Memory
+//@   ensures m.hardLimits.Memory > 0 ==> m.usedResources.Memory == old(m.usedResources.Memory) - memAmount
+//@   ensures m.hardLimits.Memory == 0 ==> m.usedResources.Memory == old(m.usedResources.Memory)
+
+//@ func (*runtimeContextManager).Due
+//@   prop C07
+//@   arith bv
+//@   ensures result == (m.stopLevel&SoftStop != 0 || spec.atLimit(m.usedResources.Cpu, m.softLimits.Cpu) || spec.atLimit(m.usedResources.Memory, m.softLimits.Memory) || spec.atLimit(m.usedResources.Millis, m.softLimits.Millis))
+
+//@ func (*runtimeContextManager).SetStopLevel
+//@   prop C07
+//@   arith bv
+//@   modifies m.stopLevel, m.status
+//@   exits ContextTerminationError when stopLevel&HardStop != 0 && m.status == StatusLive
+//@   exits_ensures m.status == StatusKilled && m.stopLevel == old(m.stopLevel)|stopLevel
+//@   ensures m.stopLevel == old(m.stopLevel)|stopLevel && m.status == old(m.status)
+
+//@ func (*runtimeContextManager).CheckRequiredFlags
+//@   prop C07 C08
+//@   arith bv
+//@   ensures (result == nil) == (m.requiredFlags &^ flags == 0)
+
+// Creating a child context (quotas.md; property C07): the child never has more
+// hard budget than the parent has left, soft <= hard, flags only grow, the
+// child starts at zero, the parent is saved unchanged.
+//@ func (*runtimeContextManager).PushContext
+//@   prop C07
+//@   arith bv
+//@   requires m.status == StatusLive && usedOK(m) && trackOK(m)
+//@   modifies all(m)
+//@   exits ContextTerminationError
+//@   exits_ensures old(m.trackTime) && m.status == StatusKilled
+//@   ensures old(m.hardLimits.Cpu) != 0 ==> m.hardLimits.Cpu != 0 && m.hardLimits.Cpu <= old(m.hardLimits.Cpu) - old(m.usedResources.Cpu)
+//@   ensures old(m.hardLimits.Memory) != 0 ==> m.hardLimits.Memory != 0 && m.hardLimits.Memory <= old(m.hardLimits.Memory) - old(m.usedResources.Memory)
+//@   ensures old(m.hardLimits.Millis) != 0 ==> m.hardLimits.Millis != 0 && m.hardLimits.Millis <= old(m.hardLimits.Millis) - m.parent.usedResources.Millis
+//@   ensures spec.limLe(m.hardLimits.Cpu, ctx.HardLimits.Cpu) && spec.limLe(m.hardLimits.Memory, ctx.HardLimits.Memory) && spec.limLe(m.hardLimits.Millis, ctx.HardLimits.Millis)
+//@   ensures softOK(m)
+//@   ensures spec.limLe(m.softLimits.Cpu, ctx.SoftLimits.Cpu) && spec.limLe(m.softLimits.Memory, ctx.SoftLimits.Memory) && spec.limLe(m.softLimits.Millis, ctx.SoftLimits.Millis)
+//@   ensures spec.limLe(m.softLimits.Cpu, old(m.softLimits.Cpu)) && spec.limLe(m.softLimits.Memory, old(m.softLimits.Memory)) && spec.limLe(m.softLimits.Millis, old(m.softLimits.Millis))
+//@   ensures m.usedResources.Cpu == 0 && m.usedResources.Memory == 0 && m.usedResources.Millis == 0 && m.status == StatusLive
+//@   ensures m.requiredFlags & old(m.requiredFlags) == old(m.requiredFlags) && m.requiredFlags & ctx.RequiredFlags == ctx.RequiredFlags
+//@   ensures (ctx.HardLimits.Cpu != 0 ==> m.requiredFlags&ComplyCpuSafe != 0) && (ctx.HardLimits.Memory != 0 ==> m.requiredFlags&ComplyMemSafe != 0) && (ctx.HardLimits.Millis != 0 ==> m.requiredFlags&ComplyTimeSafe != 0)
+//@   ensures trackOK(m) && usedOK(m)
+//@   ensures m.parent != nil && fresh(m.parent)
+//@   ensures m.parent.hardLimits == old(m.hardLimits) && m.parent.softLimits == old(m.softLimits) && m.parent.requiredFlags == old(m.requiredFlags) && m.parent.status == old(m.status) && m.parent.parent == old(m.parent)
+//@   ensures m.parent.usedResources.Cpu == old(m.usedResources.Cpu) && m.parent.usedResources.Memory == old(m.usedResources.Memory)
+//@   ensures m.parent.trackCpu == old(m.trackCpu) && m.parent.trackMem == old(m.trackMem) && m.parent.trackTime == old(m.trackTime) && m.parent.stopLevel == old(m.stopLevel)
+//@   ensures usedOK(m.parent)
